@@ -497,6 +497,7 @@ def audit_plan(e, parts=None, schema=True, structure=True):
                     break
     if schema:
         stats["schema_audits"] += 1
+        # (i) every individual partition carries the declared container type, labels and names
         for i, p in enumerate(parts):
             if isinstance(meta, (pd.DataFrame, pd.Series, pd.Index)):
                 if type(p) is not type(meta) and not (isinstance(meta, pd.Index) and isinstance(p, pd.Index)):
@@ -504,40 +505,48 @@ def audit_plan(e, parts=None, schema=True, structure=True):
                     break
                 if isinstance(meta, pd.DataFrame):
                     if list(p.columns) != list(meta.columns):
-                        problems.append({"oracle": "plan_schema", "symptom": "column-labels", "got": list(map(str, p.columns)), "exp": list(map(str, meta.columns)), "part": i})
-                        break
-                    bad = False
-                    for j, c in enumerate(meta.columns):
-                        a, b = dkind(meta.iloc[:, j].dtype), dkind(p.iloc[:, j].dtype)
-                        if a != b and not _schema_promotion_ok(a, b, p.iloc[:, j]):
-                            problems.append({"oracle": "plan_schema", "symptom": "dtype-kind", "col": str(c), "got": str(p.iloc[:, j].dtype), "exp": str(meta.iloc[:, j].dtype),
-                                             "part": i, "part_len": len(p), "has_na": bool(p.iloc[:, j].isna().any())})
-                            bad = True
-                            break
-                    if bad:
+                        problems.append({"oracle": "plan_schema", "symptom": "column-labels", "got": list(map(str, p.columns)), "exp": list(map(str, meta.columns)), "part": i, "part_len": len(p)})
                         break
                 elif isinstance(meta, pd.Series):
                     if not _name_eq(meta.name, p.name):
-                        problems.append({"oracle": "plan_schema", "symptom": "name", "got": repr(p.name), "exp": repr(meta.name), "part": i})
-                        break
-                    a, b = dkind(meta.dtype), dkind(p.dtype)
-                    if a != b and not _schema_promotion_ok(a, b, p):
-                        problems.append({"oracle": "plan_schema", "symptom": "dtype-kind", "got": str(p.dtype), "exp": str(meta.dtype), "part": i, "part_len": len(p), "has_na": bool(p.isna().any())})
+                        problems.append({"oracle": "plan_schema", "symptom": "name", "got": repr(p.name), "exp": repr(meta.name), "part": i, "part_len": len(p)})
                         break
                 idx = p if isinstance(p, pd.Index) else p.index
                 midx = meta if isinstance(meta, pd.Index) else meta.index
                 if list(idx.names) != list(midx.names) and not all(_name_eq(a, b) for a, b in zip(idx.names, midx.names)):
-                    problems.append({"oracle": "plan_schema", "symptom": "index-name", "got": repr(list(idx.names)), "exp": repr(list(midx.names)), "part": i})
-                    break
-                a, b = dkind(midx.dtype), dkind(idx.dtype)
-                if a != b and len(idx) and not (isinstance(idx, pd.MultiIndex)) and not _schema_promotion_ok(a, b, idx.to_series()):
-                    problems.append({"oracle": "plan_schema", "symptom": "index-dtype-kind", "got": str(idx.dtype), "exp": str(midx.dtype), "part": i})
+                    problems.append({"oracle": "plan_schema", "symptom": "index-name", "got": repr(list(idx.names)), "exp": repr(list(midx.names)), "part": i, "part_len": len(p)})
                     break
             else:
                 if isinstance(p, (pd.DataFrame, pd.Series, pd.Index)):
                     problems.append({"oracle": "plan_schema", "symptom": "container-kind", "got": type(p).__name__, "exp": "scalar:" + type(meta).__name__, "part": i})
                     break
                 stats["scalar_nodes"] += 1
+        # (ii) dtype kinds of the computed result (partitions concatenated as compute() does) equal the declared ones,
+        #      up to pandas' own promotion of integer/boolean columns that acquired missing values
+        if not problems and isinstance(meta, (pd.DataFrame, pd.Series)) and parts and all(isinstance(p, type(meta)) for p in parts):
+            from vmon.execs import concat_parts
+
+            try:
+                whole = concat_parts(parts)
+            except Exception:
+                whole = None
+            if whole is not None and len(whole):
+                stats["dtype_audits"] += 1
+                if isinstance(meta, pd.DataFrame):
+                    for j, c in enumerate(meta.columns):
+                        a, b = dkind(meta.iloc[:, j].dtype), dkind(whole.iloc[:, j].dtype)
+                        if a != b and not _schema_promotion_ok(a, b, whole.iloc[:, j]):
+                            problems.append({"oracle": "plan_schema", "symptom": "dtype-kind", "col": str(c), "got": str(whole.iloc[:, j].dtype), "exp": str(meta.iloc[:, j].dtype),
+                                             "has_na": bool(whole.iloc[:, j].isna().any())})
+                            break
+                else:
+                    a, b = dkind(meta.dtype), dkind(whole.dtype)
+                    if a != b and not _schema_promotion_ok(a, b, whole):
+                        problems.append({"oracle": "plan_schema", "symptom": "dtype-kind", "got": str(whole.dtype), "exp": str(meta.dtype), "has_na": bool(whole.isna().any())})
+                if not problems and not isinstance(whole.index, pd.MultiIndex):
+                    a, b = dkind(meta.index.dtype), dkind(whole.index.dtype)
+                    if a != b and not _schema_promotion_ok(a, b, whole.index.to_series()):
+                        problems.append({"oracle": "plan_schema", "symptom": "index-dtype-kind", "got": str(whole.index.dtype), "exp": str(meta.index.dtype)})
     return problems, stats
 
 
